@@ -138,4 +138,61 @@ def getVectorHeaderG (b : Bytes) : Res Nat :=
     | .error e => .error e
     | .ok (n, r') => if Facts.C20.vectorNegative (toInt32 n) then .error .invalidLength else .ok (n, r')
 
+/-! ### `bin.Fields` (the TL `#` flags word) -/
+
+/-- `1 << n` in `uint32` arithmetic (shift count ≥ 32 gives 0). -/
+def bit32 (n : Nat) : Nat := (2 ^ n) % 2 ^ 32
+
+/-- `Fields.Has(n)`: `f&(1<<n) != 0`. -/
+def fieldsHas (f n : Nat) : Bool := (f &&& bit32 n) != 0
+/-- `Fields.Set(n)`: `*f |= 1 << n`. -/
+def fieldsSet (f n : Nat) : Nat := f ||| bit32 n
+/-- `Fields.Unset(n)`: `*f &= ^(1 << n)` (`^x` on uint32 = (2^32 − 1) xor x). -/
+def fieldsUnset (f n : Nat) : Nat := f &&& ((2 ^ 32 - 1) ^^^ bit32 n)
+/-- `Fields.Zero()`. -/
+def fieldsZero (f : Nat) : Bool := f == 0
+/-- `Fields.Encode`: `PutUint32(uint32(f))`. -/
+def putFields (f : Nat) : Bytes := putU32 f
+/-- `Fields.Decode`: `Int32()` then `Fields(v)` (int32 → uint32: the same 32 bits). -/
+def getFields (b : Bytes) : Res Nat :=
+  match getInt32 b with
+  | .error e => .error e
+  | .ok (v, r) => .ok (ofInt32 v, r)
+
+/-! ### `bin.Buffer` housekeeping (`ResetN`, `Expand`, `Skip`, `Read`, `Copy`, `Put`, …) and `bin.Pool` -/
+
+/-- `Buffer.ResetN(n)`: `append(b.Buf[:0], make([]byte, n)...)`. -/
+def bufResetN (n : Int) : Out Bytes :=
+  match goMake n with
+  | .ok k => .ok (zeros k)
+  | .err e => .err e
+  | .panic => .panic
+/-- `Buffer.Expand(n)`: `append(b.Buf, make([]byte, n)...)`. -/
+def bufExpand (b : Bytes) (n : Int) : Out Bytes :=
+  match goMake n with
+  | .ok k => .ok (b ++ zeros k)
+  | .err e => .err e
+  | .panic => .panic
+/-- `Buffer.Skip(n)`: `b.Buf = b.Buf[n:]` (no check of its own). -/
+def bufSkip (b : Bytes) (n : Nat) : Out Bytes := goFrom b n
+/-- `Buffer.Read(p)` with `len(p) = k`: (bytes copied, io.EOF?, rest). -/
+def bufRead (b : Bytes) (k : Nat) : Bytes × Bool × Bytes :=
+  if k = 0 then ([], false, b)
+  else if b.isEmpty then ([], true, b)
+  else (b.take k, false, b.drop k)
+/-- `Buffer.Put(raw)`. -/
+def bufPut (b raw : Bytes) : Bytes := b ++ raw
+/-- `Pool.GetSize(n)`: whatever buffer the pool hands out, `Reset` then `ResetN(n)`. -/
+def poolGetSize (_recycled : Bytes) (n : Int) : Out Bytes := bufResetN n
+/-- `Pool.Get()`: `Reset` of whatever buffer the pool hands out. -/
+def poolGet (_recycled : Bytes) : Bytes := []
+
+/-- Reading a buffer to the end with reads of the given sizes (each ≥ 1): the chunks in order. -/
+def readChunks : List Nat → Bytes → List Bytes × Bytes
+  | [], b => ([], b)
+  | k :: ks, b =>
+    let (c, _, r) := bufRead b k
+    let (cs, r') := readChunks ks r
+    (c :: cs, r')
+
 end TdModel.C20
